@@ -3,7 +3,8 @@
 If the planner reports a bipartite (conflict-free) colouring, then any two different producers of one signal name
 that feed the same consumer — and are not members of one intended wire merge — are on different colours, and so are a
 BUNDLE wire (it carries every signal of the bundle) and any other producer at the same consumer; every producer has a
-colour, and locked colours are respected.  The function works on concrete lists/dicts of tuples
+colour, and locked colours are respected.  K7 (wire isolation): two same-named producers that share a potential network
+but not a consumer are separated as well whenever two colours suffice for all such pairs.  The function works on concrete lists/dicts of tuples
 (outside the symbolic executor's subset), so the contract's executable twin is evaluated on the REAL function over
 an enumerated box of edge sets: bounded, labelled as such."""
 from __future__ import annotations
@@ -14,6 +15,7 @@ from pyvc import types as ty
 from pyvc.contract import Contract
 
 Q = "dsl_compiler/src/layout/wire_router.py::plan_wire_colors"
+_BUNDLE_WIRES = {"bundle", "signal-each"}   # what the wire of a bundle is called in an edge: an entity's output / a bundle constant or each-result
 
 
 def _conflict_pairs(edges):
@@ -30,7 +32,7 @@ def _conflict_pairs(edges):
             by_sink.setdefault(e.sink_entity_id, []).append(((e.source_entity_id, e.resolved_signal_name), e.originating_merge_id))
     for members in by_sink.values():
         for (a, ma), (b, mb) in itertools.combinations(members, 2):
-            if a[0] != b[0] and "bundle" in (a[1], b[1]) and not (ma is not None and ma == mb):
+            if a[0] != b[0] and (a[1] in _BUNDLE_WIRES or b[1] in _BUNDLE_WIRES) and not (ma is not None and ma == mb):
                 pairs.add(tuple(sorted((a, b))))
     for members in groups.values():
         first = {}
@@ -43,6 +45,75 @@ def _conflict_pairs(edges):
     return pairs
 
 
+def _network_pairs(edges):
+    """K7: same-named producers that no consumer reads together but that are wired into ONE potential network (connectors joined by any edge, whatever its colour): a consumer
+    that filters its operands by colour (a combinator) stays clear of the foreign producer exactly when the two are on different colours"""
+    parent = {}
+
+    def find(x):
+        parent.setdefault(x, x)
+        while parent[x] != x:
+            parent[x] = parent[parent[x]]
+            x = parent[x]
+        return x
+    wired = [e for e in edges if e.source_entity_id]
+    for e in wired:
+        ra, rb = find(("out", e.source_entity_id)), find(("in", e.sink_entity_id))
+        if ra != rb:
+            parent[ra] = rb
+    producers, together, merge = {}, {}, {}
+    for e in wired:
+        if e.resolved_signal_name in _BUNDLE_WIRES:
+            continue
+        producers.setdefault((find(("out", e.source_entity_id)), e.resolved_signal_name), set()).add(e.source_entity_id)
+        together.setdefault((e.sink_entity_id, e.resolved_signal_name), set()).add(e.source_entity_id)
+        merge[(e.source_entity_id, e.resolved_signal_name)] = e.originating_merge_id
+    pairs = set()
+    for e in wired:
+        n = e.resolved_signal_name
+        if n in _BUNDLE_WIRES or e.sink_entity_type not in ("arithmetic-combinator", "decider-combinator"):
+            continue
+        wanted = together[(e.sink_entity_id, n)]
+        for other in producers[(find(("in", e.sink_entity_id)), n)] - wanted:
+            for mine in wanted:
+                a, b = (mine, n), (other, n)
+                if a != b and not (merge.get(a) is not None and merge.get(a) == merge.get(b)):
+                    pairs.add(tuple(sorted((a, b))))
+    return pairs
+
+
+def _two_colourable(nodes, pairs, locked):
+    adj = {n: set() for n in nodes}
+    for x, y in pairs:
+        adj.setdefault(x, set()).add(y)
+        adj.setdefault(y, set()).add(x)
+    colour = {}
+    for start in sorted(adj):
+        if start in colour:
+            continue
+        options = [locked[start]] if start in locked else ["red", "green"]
+        ok_any = False
+        for first in options:
+            trial, stack, ok = dict(colour), [(start, first)], True
+            while stack and ok:
+                n, c = stack.pop()
+                if n in locked and locked[n] != c:
+                    ok = False
+                    break
+                if n in trial:
+                    ok = trial[n] == c
+                    continue
+                trial[n] = c
+                for m in adj[n]:
+                    stack.append((m, "green" if c == "red" else "red"))
+            if ok:
+                colour, ok_any = trial, True
+                break
+        if not ok_any:
+            return False
+    return True
+
+
 def _post(a, res):
     edges, locked = a.edges, (a.locked_colors or {})
     nodes = {(e.source_entity_id, e.resolved_signal_name) for e in edges if e.source_entity_id}
@@ -51,8 +122,16 @@ def _post(a, res):
         return False
     if any(asg.get(n) != c for n, c in locked.items()):
         return False
-    proper = all(asg[x] != asg[y] for x, y in _conflict_pairs(edges))
-    return (not res.is_bipartite) or proper
+    essential = _conflict_pairs(edges)
+    proper = all(asg[x] != asg[y] for x, y in essential)
+    if not ((not res.is_bipartite) or proper):
+        return False
+    # K7: when two colours are enough for ALL network pairs as well, every one of them is separated (when they are not, as many as the planner can add one by one; not
+    # specified here beyond: the essential pairs are never given up for them)
+    network = _network_pairs(edges)
+    if res.is_bipartite and _two_colourable(nodes, essential | network, {k: v for k, v in locked.items()}):
+        return all(asg[x] != asg[y] for x, y in network)
+    return True
 
 
 plan_colors = Contract(
@@ -65,14 +144,14 @@ CONTRACTS = [plan_colors]
 
 def arg_sets(tier):
     from dsl_compiler.src.layout.wire_router import CircuitEdge
-    srcs, sinks, sigs, merges = ("A", "B", "C"), ("X", "Y"), ("s", "t", "bundle"), (None, "m1")
+    srcs, sinks, sigs, merges = ("A", "B", "C"), ("X", "Y"), ("s", "t", "bundle", "signal-each"), (None, "m1")
     universe = [(s, k, g, m) for s in srcs for k in sinks for g in sigs for m in merges]
     out = []
     kmax = 3 if tier == "quick" else 4
     for k in range(1, kmax + 1):
         for combo in itertools.combinations(universe, k):
             edges = [CircuitEdge(logical_signal_id=g, resolved_signal_name=g, source_entity_id=s, sink_entity_id=kk, source_entity_type=None,
-                                 sink_entity_type=None, sink_role=None, originating_merge_id=m) for (s, kk, g, m) in combo]
+                                 sink_entity_type=("arithmetic-combinator" if kk == "X" else "small-lamp"), sink_role=None, originating_merge_id=m) for (s, kk, g, m) in combo]
             out.append({"edges": edges, "locked_colors": None})
             if k <= 2 or tier != "quick":
                 out.append({"edges": edges, "locked_colors": {(combo[0][0], combo[0][2]): "green"}})
